@@ -132,6 +132,16 @@ def main():
                 entry["sample"] = {"value": neutral(x), "bytes": buf.getvalue().hex(), "roundtrip": back == x}
             except BaseException as ex:      # noqa: BLE001
                 entry["sample_error"] = repr(ex)
+            try:
+                # a second instance that leaves every defaulted field at its default
+                hints = typing.get_type_hints(T)
+                y = T(**{f.name: sample(hints[f.name], 5 + i) for i, f in enumerate(dataclasses.fields(T)) if f.default is dataclasses.MISSING})
+                buf = io.BytesIO()
+                entity_writer(T)(buf, y)
+                back = entity_reader(T)(io.BytesIO(buf.getvalue()))
+                entry["sample_default"] = {"value": neutral(y), "bytes": buf.getvalue().hex(), "roundtrip": back == y}
+            except BaseException as ex:      # noqa: BLE001
+                entry["sample_default_error"] = repr(ex)
         result["modules"][m.name] = entry
     try:
         idx = importlib.import_module("kio.schema.index")
